@@ -83,8 +83,18 @@ def table(terms, total_order=True):
         _atoms(n, atoms)
     if len(atoms) > MAX_ATOMS:
         return None
+    # x == c1 and x == c2 cannot both hold for different constants c1, c2
+    excl = []
+    eqs = [(i, a) for i, a in enumerate(atoms) if a[0] == "op" and a[1] in ("cmp:Eq", "cmp:Is") and len(a[2]) == 2]
+    for (i, a), (j, b) in itertools.combinations(eqs, 2):
+        for x1, c1 in ((a[2][0], a[2][1]), (a[2][1], a[2][0])):
+            for x2, c2 in ((b[2][0], b[2][1]), (b[2][1], b[2][0])):
+                if x1 == x2 and c1 != c2 and (is_num(c1) or c1[0] == "const") and (is_num(c2) or c2[0] == "const"):
+                    excl.append((i, j))
     rows = []
     for vals in itertools.product((False, True), repeat=len(atoms)):
+        if any(vals[i] and vals[j] for i, j in excl):
+            continue
         env = dict(zip(atoms, vals))
         rows.append((env, [_ev(n, env) for n in ns]))
     return rows
